@@ -102,6 +102,10 @@ Proof.
   intros H s inputs Hi Hs. apply (model_passes_checker M_hist); auto; intros a b; apply H.
 Qed.
 
+(** The constants used by the model are the ones scraped from core/src/diff.rs. *)
+Theorem C03_tables_agree : tables_okb = true.
+Proof. reflexivity. Qed.
+
 Example C03_nonvacuous :
   diff_hunks [(TokLine, CmpExact)] [hex "610a620a630a"; hex "610a780a630a64"]
   = [(true, [(0, 2); (0, 2)]); (false, [(2, 4); (2, 4)]); (true, [(4, 6); (4, 6)]);
